@@ -420,6 +420,11 @@ fn call_graph_programs() -> Vec<String> {
         "static int g_calls = 0;\nstatic float g_acc = 0.5f;\nstruct S { int base; int mix(int a, int b = 7, int c = 9) { g_calls += 1; return base + a * 100 + b * 10 + c; } int twice(int a) { return mix(a) + mix(a, 1) + mix(a, 1, 2); } float scale(float f = 2.0f) { g_acc += f; return g_acc * f; } };\nint method_defaults(int x) { S s; s.base = 1; return s.mix(x) + s.mix(x, 2) + s.mix(x, 2, 3) + g_calls * 100000; }\nint method_inside(int x) { S s; s.base = 2; return s.twice(x) + g_calls * 100000; }\nfloat method_float(float x) { S s; s.base = 0; return s.scale() + s.scale(x) + g_acc; }\nint free_defaults(int x);\nint fd(int a, int b = 4, int c = 6) { g_calls += 2; return a + b * 10 + c * 100; }\nint free_defaults(int x) { return fd(x) + fd(x, 1) + fd(x, 1, 2) + g_calls * 100000; }\n".to_string(),
         // a scalar cast to a struct assigns every member the same value: the operand is evaluated once
         "struct P { int x; int y[2]; };\nstatic int gq = 0;\nint nextq() { gq += 1; return gq; }\nint cast_plain(int a) { P p = (P)(a * 2 + 1); return p.x * 100 + p.y[0] * 10 + p.y[1]; }\nint cast_call(int a) { P p = (P)(a + nextq()); return p.x * 100 + p.y[0] * 10 + p.y[1] + gq * 1000; }\nint cast_inc(int a) { int l = a; P p = (P)(l++ + 1); return p.x + p.y[0] + p.y[1] + l * 1000; }\nint cast_assign(int a) { int l = 0; P p = (P)(l = a + 3); return p.x + p.y[1] + l; }\n".to_string(),
+        // ... and each of them alone: an exporter that refuses one of the four refuses the whole program above
+        "struct P { int x; int y[2]; };\nstatic int gq = 0;\nint nextq() { gq += 1; return gq; }\nint cast_plain(int a) { P p = (P)(a * 2 + 1); return p.x * 100 + p.y[0] * 10 + p.y[1]; }\n".to_string(),
+        "struct P { int x; int y[2]; };\nstatic int gq = 0;\nint nextq() { gq += 1; return gq; }\nint cast_call(int a) { P p = (P)(a + nextq()); return p.x * 100 + p.y[0] * 10 + p.y[1] + gq * 1000; }\n".to_string(),
+        "struct P { int x; int y[2]; };\nstatic int gq = 0;\nint nextq() { gq += 1; return gq; }\nint cast_inc(int a) { int l = a; P p = (P)(l++ + 1); return p.x + p.y[0] + p.y[1] + l * 1000; }\n".to_string(),
+        "struct P { int x; int y[2]; };\nstatic int gq = 0;\nint nextq() { gq += 1; return gq; }\nint cast_assign(int a) { int l = 0; P p = (P)(l = a + 3); return p.x + p.y[1] + l; }\n".to_string(),
         // the only use of a global / the only call of a function with inout parameters sits inside index brackets
         "static uint gi = 1u;\nstatic int table[4] = { 10, 20, 30, 40 };\nuint pick() { gi += 1u; return gi; }\nint only_in_index(int x) { int a[4] = { 1, 2, 3, 4 }; return a[gi & 3u] + x; }\nint call_in_index(int x) { int a[4] = { 5, 6, 7, 8 }; return a[pick() & 3u] + x; }\nint global_table(int x) { return table[(uint)x & 3u]; }\n".to_string(),
         "uint bump(inout uint a, inout uint b) { a += 1u; b += 20u; return a + b; }\nint inout_in_index(int x) { int a[4] = { 1, 2, 3, 4 }; uint v = (uint)x & 1u; return a[bump(v, v) & 3u] * 100 + (int)v; }\n".to_string(),
